@@ -431,6 +431,77 @@ def name_probes(ctx):
                     ctx.report('ctor-wrong-exception-type', '%s message with %s=%r raised %r' % (ctor, pos, v, e), case, case)
                     continue
                 ctx.report('invalid-name-constructed', '%s message constructed with invalid %s=%r' % (ctor, pos, v), case, case)
+    cross_position_probes(ctx)
+
+
+# strings that are valid in one header position and invalid in another: each is first used where it is valid (the
+# message must be constructible, by the same constructors), then where it is not (validation that remembers a string
+# it has seen, whichever validator saw it, shows only in this order)
+CROSS = [
+    ('destination', 'com.example.my-app', ('interface', 'error_name', 'member', 'path')),
+    ('destination', ':1.42', ('interface', 'error_name', 'member', 'path')),
+    ('destination', 'a-b.c_d', ('interface', 'error_name')),
+    ('destination', ':a.7-x', ('interface', 'error_name', 'member')),
+    ('sender', ':1.43', ('interface', 'error_name')),
+    ('sender', 'org.x-y.Z', ('interface', 'error_name', 'destination_ok')),
+    ('member', 'PlainMember', ('interface', 'error_name', 'destination', 'path')),
+    ('member', '_m9', ('interface', 'error_name', 'destination')),
+    ('interface', 'org.ex.Iface9', ('member', 'path')),
+    ('error_name', 'org.ex.Err9', ('member', 'path')),
+    ('path', '/org/ex/p9', ('member', 'interface', 'error_name', 'destination')),
+    ('path', '/', ('member', 'interface', 'error_name', 'destination')),
+]
+
+
+def _ctor_for(ctor, a):
+    if ctor == 'call':
+        return MSG.MethodCallMessage(a['path'], a['member'], interface=a['interface'], destination=a['destination'])
+    if ctor == 'signal':
+        return MSG.SignalMessage(a['path'], a['member'], a['interface'], destination=a['destination'])
+    if ctor == 'error':
+        return MSG.ErrorMessage(a['error_name'], 1, destination=a['destination'], sender=a.get('sender'))
+    return MSG.MethodReturnMessage(1, destination=a['destination'])
+
+
+def cross_position_probes(ctx):
+    good = {'path': '/p', 'member': 'M', 'interface': 'a.b', 'destination': 'a.b', 'error_name': 'a.b', 'sender': None}
+    ctors_of = {'path': ('call', 'signal'), 'member': ('call', 'signal'), 'interface': ('call', 'signal'),
+                'destination': ('call', 'signal', 'error', 'return'), 'error_name': ('error',), 'sender': ('error',)}
+    for okpos, v, badposs in CROSS:
+        for rounds in (1, 2):
+            for ctor in ctors_of[okpos]:
+                a = dict(good)
+                a[okpos] = v
+                case = {'kind': 'cross', 'ctor': ctor, 'valid_pos': okpos, 'value': v}
+                ctx.count('evaluations')
+                ctx.count('cross_position_probes')
+                try:
+                    m = _ctor_for(ctor, a)
+                    p = RM.parse(m.rawMessage, strict=True)
+                    if p.fields.get(okpos) != v:
+                        ctx.report('wire-content', '%s with %s=%r carries %r there' % (ctor, okpos, v, p.fields.get(okpos)),
+                                   case, case)
+                except Exception as e:
+                    ctx.report(None, '%s message with valid %s=%r raised %r' % (ctor, okpos, v, e), case, case)
+            for badpos in badposs:
+                if badpos.endswith('_ok'):
+                    continue
+                for ctor in ctors_of[badpos]:
+                    a = dict(good)
+                    a[badpos] = v
+                    case = {'kind': 'cross', 'ctor': ctor, 'valid_pos': okpos, 'pos': badpos, 'value': v}
+                    ctx.count('evaluations')
+                    ctx.count('cross_position_probes')
+                    try:
+                        _ctor_for(ctor, a)
+                    except MarshallingError:
+                        continue
+                    except Exception as e:
+                        ctx.report('ctor-wrong-exception-type', '%s message with %s=%r raised %r' % (ctor, badpos, v, e),
+                                   case, case)
+                        continue
+                    ctx.report('invalid-name-constructed', '%s message constructed with %s=%r (a valid %s, used as one just '
+                               'before)' % (ctor, badpos, v, okpos), case, case)
 
 
 def run(ctx):
